@@ -1,25 +1,19 @@
-(** C15 — two versions are equal when their canonical forms coincide: per level
-    the files sorted by id (empty levels dropped: L0 is re-sorted on load and the
-    snapshot writes files by id), everything else exactly.  The canonical form is a
-    list of edits, which is also what the harness prints for Manager.Current(). *)
+(** C15 — when two versions count as equal: per level the same files as a set
+    keyed by file id (compared as id-sorted lists: the snapshot writes files by id,
+    L0 is re-sorted on load, a level without files is indistinguishable from an
+    absent one), everything else exactly. *)
 From Coq Require Import List NArith Bool.
 From NoKV Require Import Base.Bytes Base.Num Model.ManifestCodec Model.Manifest.
 Import ListNotations.
 Local Open Scope N_scope.
 
-Fixpoint insert_file (f : file_meta) (l : list file_meta) : list file_meta :=
-  match l with
-  | [] => [f]
-  | g :: l' => if fm_id f <? fm_id g then f :: l else g :: insert_file f l'
-  end.
-Definition sort_files (l : list file_meta) : list file_meta := fold_right insert_file [] l.
+Definition version_eq (a b : version) : Prop :=
+  (forall lv, sort_files (level_files a lv) = sort_files (level_files b lv)) /\
+  v_logseg a = v_logseg b /\ v_logoff a = v_logoff b /\ v_vlogs a = v_vlogs b /\
+  v_heads a = v_heads b /\ v_rafts a = v_rafts b /\ v_regions a = v_regions b.
 
-Definition canon (v : version) : list edit :=
-  concat (map (fun lf => map EAddFile (sort_files (snd lf))) (v_levels v)) ++
-  [ELogPointer (v_logseg v) (v_logoff v)] ++
-  map (fun x => EVlogUpdate (Some (snd x))) (v_vlogs v) ++
-  map (fun x => EVlogHead (Some (snd x))) (v_heads v) ++
-  map (fun x => ERaftPointer (Some (snd x))) (v_rafts v) ++
-  map (fun x => ERegion (Some {| re_meta := snd x; re_delete := false |})) (v_regions v).
+(** the abstract object of C15: the fold of the logged edits *)
+Definition state_after (es : list edit) : version := apply_all empty_version es.
 
-Definition version_eq (a b : version) : Prop := canon a = canon b.
+(** canonical printed form used by the correspondence (what writeSnapshot emits) *)
+Definition canon (v : version) : list edit := snapshot_edits v.
